@@ -9,8 +9,22 @@ def mc(name, module, quick, thorough, replay=None, workers=10, simulate=None, ti
     return d
 
 
-def rec(suite, mode, trace, nq, nt, shq=2, sht=8, salt=0, args=None):
-    return dict(kind="record", suite=suite, mode=mode, trace=trace, n={"quick": nq, "thorough": nt}, shards={"quick": shq, "thorough": sht}, salt=salt, args=args or [])
+def rec(suite, mode, trace, nq, nt, shq=2, sht=8, salt=0, args=None, shard_args=False):
+    return dict(kind="record", suite=suite, mode=mode, trace=trace, n={"quick": nq, "thorough": nt}, shards={"quick": shq, "thorough": sht}, salt=salt, args=args or [],
+                shard_args=shard_args)
+
+
+def ti_sweep(ctx):
+    """C14: the reserved type-info bits 18..31 - decode ignores them, encode writes zero - against the code's own result for the low 18 bits"""
+    import json as _json
+    per_low = 1024 if ctx["tier"] == "quick" else 0
+    out = ctx["dltv"](["sweep", "--per-low", str(per_low), "--threads", "16", "--seed", str(ctx["seed"])], timeout=1500)
+    res = _json.loads(out.strip().splitlines()[-1])
+    dis = [dict(cls={"suite": "codes", "op": "ti-reserved-bits", "model": "same as low 18 bits", "code": "differs", "api": ""},
+                item={"op": "ti", "w": [(w >> 24) & 255, (w >> 16) & 255, (w >> 8) & 255, w & 255]}, source="reserved-bit sweep") for w in res["bad"]]
+    return dict(calls=res["checked"], nontrivial=res["checked"], distinct_nontrivial=res["checked"], disagreements=dis,
+                notes=["reserved-bit sweep: %d words (%s) compared with the code's own result for their low 18 bits"
+                       % (res["checked"], "all 2^32" if per_low == 0 else "2^18 low words x %d seeded settings of bits 18..31" % per_low)])
 
 
 SLICE_RULE = ("direction A: every state of the TLC builder machine is one case; direction B: seeded random / mutated / boundary-aimed inputs. "
@@ -18,7 +32,7 @@ SLICE_RULE = ("direction A: every state of the TLC builder machine is one case; 
               "and distinct by the hash of its full JSON line (input and result).")
 
 PLANS = {
-    "_trace_of_suite": {"slice": "TraceSlice", "build": "TraceBuild"},
+    "_trace_of_suite": {"slice": "TraceSlice", "build": "TraceBuild", "codes": "TraceCodes"},
     "C01": dict(
         sany=["DltCodec.tla", "mc/MCCodec.tla", "trace/TraceSlice.tla"],
         steps=[
@@ -188,5 +202,23 @@ PLANS = {
                     "integer value), the 64-bit sum on numerals, the domain 0..2^63 and the absence of panics. MC: CaseAnalysis over 576 shapes x 4 product classes x offset sign, "
                     "Boundary (2^63-1, negative sums). A: 3 000 generated arguments with quantization 1.0 replayed with their expected value. B: all integer widths x quantizations "
                     "{0, tiny, 0.01, 1, 1.5, 1e10, +-inf, NaN, random bits} x offsets {0, +-1, +-200, i32/i64 min/max, random}.",
+    ),
+    "C14": dict(
+        sany=["DltCodes.tla", "mc/MCCodes.tla", "trace/TraceCodes.tla"],
+        steps=[
+            mc("codes", "MCCodes", "MCCodes_quick.cfg", "MCCodes_thorough.cfg"),
+            rec("codes", "bytes", "TraceCodes", 1, 1, 1, 1),
+            rec("codes", "ti", "TraceCodes", 0, 3, 8, 12, shard_args=True),
+            dict(kind="custom", fn=ti_sweep),
+        ],
+        rule="exhaustive: every HTYP byte, every MSIN byte, every type-info word over the defined bits 0..17 (2^18) is one event (thorough: plus 3 seeded settings of the reserved bits "
+             "each); the reserved-bit sweep counts one evaluation per word; every input is distinct by construction",
+        exhaustive={"quick": False, "thorough": True},
+        explanation="MC (exhaustive): all 256 HTYP and MSIN bytes (encode o decode = id, field ranges) and all 2^18 type-info words over the defined bits: AcceptRule (operational decode "
+                    "accepts exactly the words naming one supported kind with a supported width) and ReencodeLaws (the encoding decodes to the same description, differs from the word "
+                    "only in bits unused for that kind, canonical words are fixed points). B (exhaustive on the code side): every HTYP byte through dlt_message / header_type_byte, "
+                    "every MSIN byte through MessageType::try_from / u8::from and through parser + writer, every one of the 2^18 words through TypeInfo::try_from / as_bytes in both "
+                    "orders / try_from again; TLC validates each line against the statement's laws. The 14 reserved bits: one congruence (decode ignores them, encode writes zero), "
+                    "swept on the code side against the code's own result for the low 18 bits - quick: 2^18 x 1024 seeded settings, thorough: all 2^32 words.",
     ),
 }
